@@ -410,6 +410,9 @@ def sum_axioms(store, core_terms, all_terms, pairwise, wide, goal_terms=None):
 def prove(ob, timeout_ms=20000, global_axioms=(), want_model=False):
     """Discharge one Obligation.  Returns Result."""
     t0 = time.time()
+    from .sym import Stale
+    if isinstance(ob.goal, Stale):
+        raise Unsupported('contract set-up out of date: ' + ob.goal.reason)
     subgoals = skolemize(ob.goal)
     if not subgoals:
         return Result(ob.name, 'proved', time.time() - t0, kind=ob.kind, nsub=0, detail='trivial')
